@@ -7,7 +7,10 @@ import "time"
 // Contracts for clock.go (property C03: deadline arithmetic).
 
 // ghost: the latest time (ns since Start) known to have been reached; only grows (A-TIME)
-func gh_now() int64 { panic("ghost") }
+func Gh_now() int64 { panic("ghost") }
+
+// ghost: the value returned by the most recent NowNanoCached of this goroutine
+func Gh_cached() int64 { panic("ghost") }
 
 func sp_clamp(x mathint) mathint {
 	if x > 9223372036854775807 {
@@ -28,27 +31,28 @@ func spec_saturatingAdd(a, b int64) (r int64) {
 // time.Since(Start) is monotone non-decreasing (A-TIME); trusted, body not analysed
 func (c *Clock) spec_NowNano() (r int64) {
 	flag("trusted")
-	modifies(gh_now())
-	ensures("monotone", r >= old(gh_now()) && gh_now() == r)
+	modifies(Gh_now())
+	ensures("monotone", r >= old(Gh_now()) && r >= 0 && Gh_now() == r)
 	return
 }
 
 // every value ever stored in the cached clock was a reading of the real clock
-func atominv_clock_Clock_now(c *Clock, v int64) bool { return v <= gh_now() }
+func atominv_clock_Clock_now(c *Clock, v int64) bool { return v >= 0 && v <= Gh_now() }
 
 func (c *Clock) spec_RefreshNowCache() {
-	ensures("monotone", gh_now() >= old(gh_now()))
+	ensures("monotone", Gh_now() >= old(Gh_now()))
 }
 
 func (c *Clock) spec_NowNanoCached() (r int64) {
-	ensures("past", r <= gh_now() && gh_now() == old(gh_now()))
+	set(Gh_cached(), r)
+	ensures("past", r >= 0 && r <= Gh_now() && Gh_now() == old(Gh_now()) && Gh_cached() == r)
 	return
 }
 
 // deadline = min(now + ttl, MaxInt64) for the clock reading `now` taken by this call
 func (c *Clock) spec_ExpireNano(ttl time.Duration) (r int64) {
-	ensures("deadline", mathint(r) == sp_clamp(mathint(gh_now())+mathint(ttl)))
-	ensures("not_before_now", imp(ttl > 0, r >= gh_now()))
-	ensures("clock_read", gh_now() >= old(gh_now()))
+	ensures("deadline", mathint(r) == sp_clamp(mathint(Gh_now())+mathint(ttl)))
+	ensures("not_before_now", imp(ttl > 0, r >= Gh_now()))
+	ensures("clock_read", Gh_now() >= old(Gh_now()))
 	return
 }
